@@ -367,6 +367,10 @@ class _Functional(ast.NodeTransformer):
             ie = fn.args[0]
             return ast.IfExp(test=ie.test, body=ast.Attribute(value=copy.deepcopy(arg), attr=ie.body.value, ctx=ast.Load()),
                              orelse=ast.Attribute(value=copy.deepcopy(arg), attr=ie.orelse.value, ctx=ast.Load()))
+        # partial(F, a, k=v)(x)  ->  F(a, x, k=v)
+        if isinstance(fn, ast.Call) and ast.unparse(fn.func) in ("partial", "functools.partial") and fn.args \
+                and not any(isinstance(a, ast.Starred) for a in fn.args) and all(k.arg for k in fn.keywords):
+            return ast.Call(func=fn.args[0], args=list(fn.args[1:]) + [arg], keywords=list(fn.keywords))
         # a bound membership test as predicate: X.__contains__(v)  ->  v in X
         if isinstance(fn, ast.Attribute) and fn.attr == "__contains__":
             return ast.Compare(left=arg, ops=[ast.In()], comparators=[fn.value])
@@ -573,4 +577,4 @@ def lift_generators(fnode):
 
 def simplify_functional(e):
     """expression with map/filter/attrgetter idioms rewritten (see _Functional)"""
-    return _Functional().visit(e)
+    return _Functional().visit(copy.deepcopy(e))   # (the caller's tree is left as it is)
